@@ -345,6 +345,26 @@ def expression_space(payload, for_search=False):
     picked = (fam + ao + xp) if thorough else (rng.sample(fam, 60) + rng.sample(ao, 160) + rng.sample(xp, 90))
     good += [(ts, spaced(ts)) for ts in picked]
     family_keys |= {" ".join(ts) for ts in picked}
+    # beyond the small bounds (not part of the listed family; judged by the independent reader like everything else)
+    la, lb, lc = "engineTemperatureWithinNominalOperatingRange", "coolantPressureWithinNominalOperatingRange", "manualOverrideEngagedByOperator"
+    big = [[la, "&", lb, "^", lc], [la, "^", lb, "&", lc], [la, "&", lb, "|", lc, "^", la], ["~", la, "&", "(", lb, "|", lc, ")"], [la, "|", lb, "&", "~", lc]]
+    nine = list("abcdefghij")
+    for k in (9, 10) if thorough else (9,):
+        for op in ("^", "|", "&"):
+            ts = []
+            for i in range(k):
+                ts += ([op] if i else []) + [nine[i]]
+            big.append(ts)
+    for k in (8, 9):
+        base = []
+        for i in range(k - 1):
+            base += (["|"] if i else []) + [nine[i]]
+        big += [base + ["|", "a", "&", nine[k - 1]], base + ["|", nine[k - 1], "&", "b"], ["~", "a", "|"] + base[2:] + ["|", nine[k - 1]]]
+        conj = []
+        for i in range(k - 1):
+            conj += (["&"] if i else []) + [nine[i]]
+        big += [conj + ["&", "(", "a", "|", nine[k - 1], ")"], ["("] + conj + [")", "&", "("] + conj + ["&", nine[k - 1], ")"]]
+    good += [(ts, spaced(ts)) for ts in big]
     bad = []
     pool = [list(ts) for k in range(1, 5) for ts in itertools.product(TOKENS, repeat=k) if not in_language(list(ts))]
     bad += [ts for ts in pool if len(ts) <= 2]
